@@ -10,6 +10,7 @@ import PwVerif.Model.Contexts
 import PwVerif.Gen.RunLoops
 import PwVerif.Gen.Forward
 import PwVerif.Gen.PoolReset
+import PwVerif.Gen.Accessor
 /-!
 Line-protocol driver: `lake env lean --run PwVerif/Driver.lean < cases.txt`.
 One case per input line, one canonical observation per output line. Used by the
@@ -402,6 +403,16 @@ def step (line : String) : String :=
   | "c02create" :: _ =>
     ",".intercalate ([false, true].flatMap fun p => [PwVerif.Create.WType.thread, .process, .remote].map fun t => PwVerif.Create.className t p)
   | "c13choice" :: args => c13choice args
+  | ["acc", rec, phases, last] =>
+    -- acc r|n <phase letters r/c/d, one per read> <phase letter>: ThreadWorker._get_result with the regenerated order
+    let ph : Char → Option PwVerif.Accessor.Phase := fun
+      | 'r' => some .running | 'c' => some .recorded | 'd' => some .dead | _ => none
+    match phases.toList.mapM ph, last.toList.mapM ph with
+    | some ps, some [l] =>
+      if ps.length != PwVerif.Gen.threadGetResult.length then "bad-op" else
+      match PwVerif.Accessor.getResult (rec == "r") PwVerif.Gen.threadGetResult ps l with
+      | .none => "none" | .own => "own" | .fabricated => "fabricated"
+    | _, _ => "bad-op"
   | _ => "bad-op"
 
 partial def loop (h : IO.FS.Stream) : IO Unit := do
